@@ -574,6 +574,8 @@ def run(run):
     blocks = dump_blocks(r.dump, skip_substr='"pending"')
     rp = FinReplayer(paths=('direct', 'wrapped') + MIXES + SLN_MIXES + ('formula',), features=features)
     byf, ref_ok = replay_dump(run, blocks, rp)
+    # the same calls in four orders, each order in ONE fresh process (state left behind by earlier calls: numpy error mode, memos)
+    calls.replay_orders(run, blocks, FinReplayer(paths=('direct', 'wrapped'), features=features), key=lambda b: len(b), sample=20000)
     os.remove(r.dump)
     run.notes['cases_by_function'] = byf
     run.notes['reference_checked_against_spec'] = ref_ok
